@@ -9,7 +9,7 @@ from cxxheaderparser.simple import parse_string
 TECHNIQUE = 'Lean 4: syntactic regex cost analysis polyOK decided by the kernel on the rules regenerated from the live master regex, with soundness theorems bounding paths and backtracking search polynomially for every input; timing families on the implementation as failing-input search'
 LEAN_TARGET = "CxxModel.Props.C07"
 THEOREMS = ["Cxx.C07_all_rules_poly", "Cxx.C07_paths_bound", "Cxx.C07_cost_bound", "Cxx.C07_matcher_is_paths", "Cxx.C07_rep_bodies_nonnull",
-            "Cxx.polyOK_paths_le", "Cxx.polyOK_cost_le", "Cxx.singleB_sound"]
+            "Cxx.polyOK_paths_le", "Cxx.polyOK_cost_le", "Cxx.singleB_sound", "Cxx.C07_collectors_linear", "Cxx.C07_rules_make_progress", "Cxx.C07_lexer_total"]
 ANCHORS = ["lexer.py:PlyLexer", "lexer.py:<module>", "lex.py:Lexer.token", "parser.py:CxxParser._consume_balanced_tokens", "parser.py:CxxParser._discard_contents",
            "parser.py:CxxParser._consume_value_until", "parser.py:CxxParser._parse_template_specialization", "parser.py:CxxParser._parse_cv_ptr_or_fn",
            "parser.py:CxxParser._parse_pqname", "parser.py:CxxParser._parse_type", "parser.py:CxxParser._parse_parameters", "parser.py:CxxParser._parse_parameter",
@@ -23,7 +23,8 @@ RULE = ("pumpable families: for every token regular expression a string that dri
 CARRIED_BY = {
     "no lexer rule can backtrack exponentially": "theorems C07_all_rules_poly (decided on the regenerated rules) + C07_paths_bound / C07_cost_bound (soundness of the analysis: polynomial bound on the number of paths and on the size of the backtracking search of the model matcher, every input)",
     "model matcher = Python re priority semantics": "theorem C07_matcher_is_paths + correspondence `lex` / `re` (C08)",
-    "parser constructs (re-scans, trial parses)": "oracle `families` on the implementation (not proof); collectors consume each token once (C13/C14 theorems)",
+    "the token collectors run their body once per token consumed (no rescans)": "theorem C07_collectors_linear",
+    "other parser constructs (re-scans, trial parses)": "oracle `families` on the implementation (not proof)",
 }
 ASSUMPTIONS = ["CPython's sre takes no more steps than naive backtracking (its optimisations prune); wall-clock is measured, not proved"]
 MODEL_COVERAGE = "all 38 PLY rules as regex ASTs (regenerated), naive backtracking cost model (Cost.lean)"
